@@ -39,11 +39,12 @@ def _class(direction, state, cname):
     return getattr(mod, cname)
 
 
-def core_packet(ctx, pv, sentinel=False, lite=False):
+def core_packet(ctx, pv, sentinel=False, lite=False, first=0, last=None):
     from minecraft.networking.connection import ConnectionContext
     from minecraft.networking.types import VarInt
     import minecraft.networking.types as t
-    k = concretize(ctx.int('packet', 0, len(ref.CORE) - 1))
+    last = len(ref.CORE) - 1 if last is None else last
+    k = concretize(ctx.int('packet', first, last))
     direction, state, name, cname = ref.CORE[k]
     lay = ref.layout(direction, state, name, pv)
     if lay is None:
@@ -149,7 +150,8 @@ def instances(tier, seed):
                             {'pv': pv, 'lite': tier != 'thorough'},
                             W=96, budget_s=3000, witness_every=3))
     out.append(Instance('sentinel:release:757', 'core_packet',
-                        {'pv': 757, 'sentinel': True}, W=96,
+                        {'pv': 757, 'sentinel': True, 'lite': True,
+                         'first': 11, 'last': 15}, W=96,
                         expect='violation',
                         note='reference ids with the low bit flipped'))
     return out
